@@ -624,6 +624,25 @@ def diff_is_failure(prop, p):
     return a.startswith("ok") and b.startswith("throw")
 
 
+def problem_rank(prop, p):
+    """which of several failing inputs is reported: the one that speaks about the property itself first
+    (C02: a rule-breaking line that was accepted; C03: a rule-obeying line that was refused; C04: a crash)"""
+    a = p.impl or ""
+    want = None
+    e = annotation(p.line, "x-exp")
+    if e is not None:
+        want = bytes.fromhex(e).decode("latin-1")
+    elif p.model:
+        want = p.model
+    if prop == "C04":
+        return 0 if p.kind == "crash" else 1
+    if prop == "C02":
+        return 0 if a.startswith("ok") and want is not None and want.startswith("throw") else 1
+    if prop == "C03":
+        return 0 if a.startswith("throw") and want is not None and want.startswith("ok") else 1
+    return 0
+
+
 def finding_matches(finding, p):
     """custom matcher of the finding `group-abbreviation-shadows-exact`: an oracle failure or difference of a group
     evaluation in a configuration (abbreviations on) where a long key of one member is a proper prefix of a long key
